@@ -20,6 +20,7 @@ type childFlow struct {
 	m      *AstModel
 	p      *core.Prog
 	sumMem map[*ssa.Function]map[int]int // 0 unknown/in progress, 1 yes, 2 no
+	early  string                         // a helper rejected because it leaves a loop early
 }
 
 func (cf *childFlow) holdsVal(v ssa.Value) bool {
@@ -46,12 +47,56 @@ func (cf *childFlow) paramFlows(fn *ssa.Function, i int) bool {
 	}
 	cf.sumMem[fn][i] = 3 // in progress
 	ok := cf.flowsToReturn(fn.Params[i])
+	if ok && leavesLoopEarly(fn) {
+		ok = false
+		cf.early = fn.Name()
+	}
 	if ok {
 		cf.sumMem[fn][i] = 1
 	} else {
 		cf.sumMem[fn][i] = 2
 	}
 	return ok
+}
+
+// leavesLoopEarly: some loop of the helper is left from inside its body (break / return under a condition) and not only
+// through its own header test. A helper that copies a list into the result transfers every element only if its loops
+// run to completion; one that stops when a pre-computed budget is used up (sized from the first row, say) drops the rest.
+func leavesLoopEarly(fn *ssa.Function) bool {
+	for _, scc := range blockSCCs(fn, nil, nil, nil) {
+		in := blockSet(scc)
+		for _, b := range scc {
+			isHeader := false
+			for _, pr := range b.Preds {
+				if !in[pr] {
+					isHeader = true
+				}
+			}
+			for _, sc := range b.Succs {
+				if in[sc] || isHeader {
+					continue
+				}
+				// leaving towards a panic is not an early exit with a result
+				if len(sc.Instrs) > 0 {
+					if _, isPanic := sc.Instrs[len(sc.Instrs)-1].(*ssa.Panic); isPanic {
+						continue
+					}
+				}
+				// an inner loop's normal exit lands in the enclosing loop: `sc` is then inside another cycle of fn
+				inner := false
+				for _, scc2 := range blockSCCs(fn, nil, nil, nil) {
+					if len(scc2) > len(scc) && blockSet(scc2)[sc] && blockSet(scc2)[b] {
+						inner = true
+					}
+				}
+				if inner {
+					continue
+				}
+				return true
+			}
+		}
+	}
+	return false
 }
 
 // flowsToReturn: may the value start (or something it is stored into) reach a
@@ -327,7 +372,11 @@ func (cf *childFlow) analyse(fn *ssa.Function, paths []NodePath) map[string]path
 			}
 		}
 		if len(J) == 0 && len(JE) == 0 {
-			res[F] = pathVerdict{status: core.Violated, detail: "field is read but its value never reaches the returned slice"}
+			d := "field is read but its value never reaches the returned slice"
+			if cf.early != "" {
+				d = "the value is handed to the helper " + cf.early + ", which can leave one of its loops from inside the body (a budget or a condition), so it does not transfer every element to the result"
+			}
+			res[F] = pathVerdict{status: core.Violated, detail: d}
 			continue
 		}
 		// classify branches: F-absent edges may be ignored; sibling-present edges are the either-or idiom
